@@ -287,8 +287,10 @@ def list_expression_bracketed(expression: BaseSegment) -> list[BaseSegment]:
         bracketeds += tuple_segment.get_children("bracketed")
     # a subquery deeper in the condition: x > ALL (SELECT ...), a = 1 AND (b IN (SELECT ...) OR c = 2)
     found = {id(extract_innermost_bracketed(b)) for b in bracketeds if is_subquery(b)}
+    # (not into a subquery that was found: the brackets inside it, CTE bodies included, belong to its own scope)
     for bracketed in expression.recursive_crawl(
-        "bracketed", no_recursive_seg_type="select_statement"
+        "bracketed",
+        no_recursive_seg_type=["select_statement", "with_compound_statement"],
     ):
         if (
             is_bracketed_subquery(bracketed)
